@@ -70,13 +70,52 @@ Fixpoint recv_all (fuel : nat) (need : nat) (acc : list N) (rfds : option (list 
 Definition stream_len (q : stream) : nat := fold_right (fun s a => (List.length (seg_bytes s) + a)%nat) 0%nat q.
 Definition fuel_for (q : stream) (need : nat) : nat := (List.length q + stream_len q + need + 2)%nat.
 
-(* Endpoint::recv_data: a single recvmsg without a control buffer *)
+(* Endpoint::recv_data: recvmsg without a control buffer, repeated until [len] bytes arrived
+   or the stream ended; an error (descriptors attached to body bytes: ENOBUFS) is returned at once *)
 Inductive rx_data_result :=
 | RxD (bytes : list N) (cl : closed) (q : stream)
 | RxDRetry (cl : closed) (q : stream).
-Definition recv_data (len : nat) (q : stream) : rx_data_result :=
-  match recvmsg len false q with
-  | (RxEof, c, q') => RxD [] c q'
-  | (RxData bs _, c, q') => RxD bs c q'
-  | (RxRetry _, c, q') => RxDRetry c q'
+Fixpoint recv_data_loop (fuel : nat) (len : nat) (acc : list N) (cl : closed) (q : stream) : rx_data_result :=
+  match fuel with
+  | O => RxD acc cl q
+  | S f =>
+      if Nat.leb len (List.length acc) then RxD acc cl q
+      else
+        match recvmsg (len - List.length acc) false q with
+        | (RxEof, c, q') => RxD acc (cl ++ c) q'
+        | (RxData [] _, c, q') => RxD acc (cl ++ c) q'
+        | (RxData bs _, c, q') => recv_data_loop f len (acc ++ bs) (cl ++ c) q'
+        | (RxRetry _, c, q') => RxDRetry (cl ++ c) q'
+        end
   end.
+Definition recv_data (len : nat) (q : stream) : rx_data_result :=
+  recv_data_loop (fuel_for q len) len [] [] q.
+
+(* ---- sender: Endpoint::send_iovec_all over a socket that may accept only part of a write ---- *)
+Inductive tx_choice :=
+| TxAccept (k : nat)      (* the socket accepts k bytes (capped to what is offered); 0 = "wrote nothing" *)
+| TxRetry                 (* EAGAIN / EINTR / ENOBUFS: mapped to SocketRetry and retried *)
+| TxFail.                 (* any other errno *)
+Inductive tx_result := TxOk (sent : nat) | TxErr | TxFuel.
+(* one accepted sendmsg: the bytes it carried and the descriptors passed with it *)
+Definition tx_event := (list N * list N)%type.
+
+Fixpoint send_all (data : list N) (fds : list N) (oracle : list tx_choice) (sent : nat) (trace : list tx_event)
+  : tx_result * list tx_event :=
+  if Nat.leb (List.length data) sent then (TxOk sent, trace)
+  else
+    match oracle with
+    | [] => (TxFuel, trace)                      (* the call would block: outside the scripted run *)
+    | c :: rest =>
+        let sfds := match sent with O => fds | _ => [] end in
+        match c with
+        | TxAccept k =>
+            let n := Nat.min k (List.length data - sent) in
+            match n with
+            | O => (TxOk sent, trace)
+            | _ => send_all data fds rest (sent + n) (trace ++ [(firstn n (skipn sent data), sfds)])
+            end
+        | TxRetry => send_all data fds rest sent trace
+        | TxFail => (TxErr, trace)
+        end
+    end.
